@@ -505,6 +505,18 @@ class Run:
         if not ok2 or bad_ax or closed < len(names):
             self.proof_failure = ("assumptions", "closed=%d theorems=%d axioms=%s\n%s" % (closed, len(names), axioms, out[-2000:]))
             return False
+        if self.tier == "thorough" and os.environ.get("VERIF_NO_COQCHK") != "1":
+            # independent re-check of the compiled Props module and everything it depends on, with its axiom summary
+            mod = "FV." + props_file[:-2].replace("/", ".")
+            with flock("coqmake"):
+                p = sh("timeout 3000 coqchk -silent -o -Q . FV %s" % mod, cwd=COQ)
+            out = p.stdout.decode("utf8", "replace") + p.stderr.decode("utf8", "replace")
+            okc = (p.returncode == 0 and "Axioms: <none>" in out and "type-in-type: <none>" in out
+                   and "unsafe (co)fixpoints: <none>" in out and "positivity is assumed: <none>" in out)
+            self.extra["coqchk"] = {"module": mod, "ok": okc, "summary": out[-600:]}
+            if not okc:
+                self.proof_failure = ("coqchk", out[-2000:])
+                return False
         self.discharged += len(names)
         self.proof_failure = None
         return True
